@@ -60,6 +60,7 @@ func VerifyFunc(ld *Loader, specs *Specs, fk string, safetyOnly bool) (res *Func
 			// preconditions of its callees are ASSUMED (listed in the evidence with their counts)
 			ex.vc.assumeKinds = map[string]bool{"idx": true, "nil": true, "div": true, "arith": true, "pre": true, "nopanic": true, "fdiv": true, "assert": true}
 		}
+		ex.closedHeap = fc.Pragmas["closedheap"] == "yes"
 		if fc.Pragmas["floats"] == "real" {
 			ex.realFloats = true
 		}
@@ -248,6 +249,9 @@ func (ex *Exec) verifyBody(fn *ssa.Function, fc *FuncContract) {
 	}
 	ex.alloc0 = ex.vc.Fresh("alloc0", SInt)
 	ex.vc.AssumeRaw(fmt.Sprintf("(>= %s 1)", ex.alloc0.S), "")
+	for _, k := range sortedKeys(ex.heap0) {
+		ex.ghostZeroAxiom(k, ex.heap0[k].S, ex.heapSort[k])
+	}
 	st := &State{pc: TTrue, cells: map[cellKey]Value{}, heap: map[string]Term{}, ghost: map[string]Term{}, alloc: ex.alloc0}
 	ex.st = st
 	ex.frames++
